@@ -95,8 +95,8 @@ class Exhaust:
             nxt = t['target']
             for _ in range(6):
                 nb = b.blocks[nxt]
-                if nb['term']['k'] == 'goto' and not any(st['k'] == 'assign' for st in nb['stmts']):
-                    nxt = nb['term']['target']      # the `return` of a spliced helper
+                if nb['term']['k'] in ('goto', 'drop') and not any(st['k'] == 'assign' for st in nb['stmts']):
+                    nxt = nb['term']['target']      # the `return` of a spliced helper (dropping its by-value arguments first)
                 else:
                     break
             nb = b.blocks[nxt]
